@@ -252,12 +252,17 @@ GEN_SEARCH = (" ALSO, harness/translate_search.py re-translates search.py (Searc
 GEN_MEM = (" ALSO, harness/translate_memory.py re-translates the closure Memory.memory(objective).wrapper of _memory.py into "
            "generated/MemGen.v on every run; proofs/MemTie.v proves that it refines the memory branch of the model's lookup for every dictionary "
            "state, objective and value vector (Memory.__init__ is pinned by digest, modelled by hand).")
+GEN_RES = (" ALSO, harness/translate_results.py re-translates the closure ResultsManager.score(objective)._wrapper of _results_manager.py "
+           "into generated/ResGen.v on every run (_obj_func_results pinned by digest); proofs/ResTie.v proves that this wrapper around the GENERATED "
+           "memory wrapper (memory on) or the raw objective (memory off) is the model's inner_score, i.e. the whole path position -> value -> para "
+           "-> (memory) -> objective -> row is generated code proved against the model.")
 EXTRA = {
     "C12": GEN_STOP + " Theorems C12_source_score_exceeded_refines, C12_source_check_refines." + GEN_SEARCH + " Theorem C12_source_search_max_score_exact.",
     "C03": GEN_SEARCH + " Theorems C03_source_search_step_refines, C03_source_search_loop_refines, C03_source_call_accounting.",
     "C18": GEN_SEARCH + " Theorem C18_source_search_step_refines (the translated search_step is the model step that C18_search_eq_steps is about).",
     "C13": GEN_STOP + " Theorems C13_source_no_change_is_rule (the TRANSLATED no_change is the documented rule), C13_source_never_raises, C13_source_check_refines." + GEN_SEARCH + " Theorem C13_source_search_stops_exactly.",
     "C14": GEN_STOP + " Theorems C14_source_time_exceeded_refines, C14_source_check_refines." + GEN_SEARCH + " Theorem C14_source_search_max_time_exact.",
+    "C04": GEN_RES + " Theorems C04_source_results_wrapper_refines_memory_on / _memory_off.",
     "C06": GEN_MEM + " Theorems C06_source_memory_wrapper_refines, C06_source_memory_hit, C06_source_memory_miss.",
     "C11": GEN_MEM + " Theorem C11_source_memory_wrapper_refines.",
     "C05": GEN_STOP + " Theorems C05_source_update_lvl0/lvl1_refines, C05_source_verbosity_paths_agree, C05_source_new2best_spec.",
@@ -315,8 +320,8 @@ def main():
                    source_commits=[], add_only=True),
         engines=[
             dict(name="coq-model", path="/verif/coq", serves_properties=sorted(CLAIMS), kind_free_text="hand-written Gallina model (theories/), lemmas (proofs/), property theorems (props/Prop_Cxx.v, each with Print Assumptions)"),
-            dict(name="source-translators", path="/verif/harness/pytrans.py", serves_properties=["C03", "C05", "C06", "C08", "C11", "C12", "C13", "C14", "C15", "C16", "C18", "C19"],
-                 kind_free_text="translate_facades.py (C18 data), translate_core.py (tracker layer: C15, C19), translate_driver.py (_stop_run.py, _progress_bar.py: C05, C12-C14), translate_grid.py (grid search: C16, C08), translate_search.py (search.py driver: C03, C12-C14, C18), translate_memory.py (_memory.py wrapper: C06, C11): Gallina regenerated from /repo's AST on every run, refinement to the hand model proved in proofs/*Tie.v"),
+            dict(name="source-translators", path="/verif/harness/pytrans.py", serves_properties=["C03", "C04", "C05", "C06", "C08", "C11", "C12", "C13", "C14", "C15", "C16", "C18", "C19"],
+                 kind_free_text="translate_facades.py (C18 data), translate_core.py (tracker layer: C15, C19), translate_driver.py (_stop_run.py, _progress_bar.py: C05, C12-C14), translate_grid.py (grid search: C16, C08), translate_search.py (search.py driver: C03, C12-C14, C18), translate_memory.py (_memory.py wrapper: C06, C11), translate_results.py (_results_manager.py wrapper: C04): Gallina regenerated from /repo's AST on every run, refinement to the hand model proved in proofs/*Tie.v"),
             dict(name="correspondence", path="/verif/harness", serves_properties=sorted(CLAIMS), kind_free_text="K/D/S units: implementation and model run on the same inputs; the model is evaluated inside Coq (generated cases files, vm_compute)"),
             dict(name="monitors", path="/verif/harness/props", serves_properties=sorted(CLAIMS), kind_free_text="direct Python encodings of each property used to find concrete failing inputs (replays); never the proof"),
         ],
